@@ -1,6 +1,7 @@
 package main
 
 import (
+	"runtime/debug"
 	"encoding/json"
 	"fmt"
 	"math/rand"
@@ -176,6 +177,9 @@ func runCheck(opt *checkOpts) int {
 			defer func() {
 				if r := recover(); r != nil {
 					genErr = r
+					if os.Getenv("GOVC_STACK") != "" {
+						fmt.Fprintf(os.Stderr, "generator panic: %v\n%s\n", r, debug.Stack())
+					}
 				}
 			}()
 			if u.lemma != nil {
